@@ -33,6 +33,17 @@ import (
 //
 // "queue" cases: histories of Enqueue / Dequeue on the real retry queue with
 // default and custom intervals at the interval and expiry boundaries ±1 ns.
+//
+// Check blocks: ordinary heights, and — in every kind of case (pipe, queue, plugin,
+// fair, stress) — the ends of the uint64 domain: 0 (the block of a trigger nobody
+// stamped), 1, 2, 2^63-1, 2^63, 2^63+1, 2^64-2, 2^64-1, with equal blocks, and with
+// older / newer blocks of one unit of work far apart (c12BlockGen, c12EdgeBlocks).
+//
+// Pipe cases also leave the well-behaved environment: calls of the pipeline that
+// answer with MORE results than payloads (Extra), neighbour flows built with nil
+// providers / queues and a retry flow without a queue (NilIdle), a source queue
+// whose Dequeue fails on chosen ticks (DeqErr), and a payload builder that answers
+// chosen proposals with an empty payload (Blank; the builder's answers are logged).
 
 // ---------------------------------------------------------------- JSON forms
 
@@ -88,6 +99,11 @@ type c12Item struct {
 	UErr   bool       `json:"uerr"`   // the upkeep state updater returns an error for it
 	FeedIv int64      `json:"feedIv"` // retry flow: interval of the feeding Enqueue
 	TRes   *c12Res    `json:"tres"`   // deadline mode: the answer when the pipeline runs out of time on this payload
+	// Extra: results the pipeline returns IN ADDITION in the call that contains this payload (appended after the call's
+	// regular answers): more results than payloads, for work ids no payload has — outside the pipeline's contract
+	Extra []c12Res `json:"extra,omitempty"`
+	// Blank: the payload builder answers this unit of work's proposal with an EMPTY payload (final flows)
+	Blank bool `json:"blank,omitempty"`
 }
 type c12Probe struct {
 	Kind  string `json:"kind"` // "abs": D ns after the previous step; "bound": at enqueue J's interval boundary + Delta
@@ -114,10 +130,18 @@ type c12Input struct {
 	RevBatch bool      `json:"revBatch,omitempty"` // the pipeline answers each call in reverse payload order
 	// Deadline: the pipeline honours the caller's DEADLINE: when it expires, the call returns (without error) what it
 	// finished and reports every payload it could not finish as that payload's `tres` (a retryable failure)
-	Deadline bool       `json:"deadline,omitempty"`
-	RunFor   int64      `json:"runFor,omitempty"` // virtual ns the flows run
-	Probes   []c12Probe `json:"probes,omitempty"`
-	Ops      []c12Op    `json:"ops,omitempty"`
+	Deadline bool  `json:"deadline,omitempty"`
+	RunFor   int64 `json:"runFor,omitempty"` // virtual ns the flows run
+	// NilIdle: the flows that are not the case's subject are built with NIL providers / queues (instead of empty ones),
+	// and a retry flow over a nil retry queue runs alongside
+	NilIdle bool `json:"nilIdle,omitempty"`
+	// DeqErr: which tick Dequeue calls (0-based) on the case's source queue — the retry queue of the retry flow, the
+	// proposal queue of the final flows — fail
+	DeqErr []int `json:"deqErr,omitempty"`
+	// BldErr: which calls (0-based, counting calls with proposals) of the final flows' payload builder fail
+	BldErr []int      `json:"bldErr,omitempty"`
+	Probes []c12Probe `json:"probes,omitempty"`
+	Ops    []c12Op    `json:"ops,omitempty"`
 	// plugin cases
 	PItems    []c12PItem `json:"pitems,omitempty"`
 	Decoy     bool       `json:"decoy,omitempty"`     // build and close another instance on the same factory first
@@ -155,18 +179,21 @@ type c12Asked struct {
 	TO  []int `json:"to"` // input items of this call that were answered with their `tres` (deadline expired)
 }
 type c12Impl struct {
-	Runs   []c12RunRec   `json:"runs"`
-	Adds   []JCR         `json:"adds"`
-	View   []JCR         `json:"view"`
-	Props  []JProp       `json:"props"`
-	PView  []JProp       `json:"pview"`
-	Inelig []JCR         `json:"inelig"`
-	QLog   []c12QEv      `json:"qlog"`
-	Asked  []c12Asked    `json:"asked"`
-	Note   string        `json:"note,omitempty"`
-	Plugin *c12PluginOut `json:"plugin,omitempty"`
-	Stress *c12StressOut `json:"stress,omitempty"`
-	Fair   *c12FairOut   `json:"fair,omitempty"`
+	Runs    []c12RunRec    `json:"runs"`
+	Adds    []JCR          `json:"adds"`
+	View    []JCR          `json:"view"`
+	Props   []JProp        `json:"props"`
+	PView   []JProp        `json:"pview"`
+	Inelig  []JCR          `json:"inelig"`
+	QLog    []c12QEv       `json:"qlog"`
+	Asked   []c12Asked     `json:"asked"`
+	Built   [][]c12Payload `json:"built,omitempty"`   // what the payload builder returned, per call with proposals
+	DeqErrs int            `json:"deqErrs,omitempty"` // tick Dequeue calls that were made to fail
+	BldErrs int            `json:"bldErrs,omitempty"` // payload builder calls that were made to fail
+	Note    string         `json:"note,omitempty"`
+	Plugin  *c12PluginOut  `json:"plugin,omitempty"`
+	Stress  *c12StressOut  `json:"stress,omitempty"`
+	Fair    *c12FairOut    `json:"fair,omitempty"`
 }
 
 // ---------------------------------------------------------------- recording decorators and fakes
@@ -210,10 +237,13 @@ var (
 
 // c12RecQueue wraps the real retry queue.
 type c12RecQueue struct {
-	inner types.RetryQueue
-	clk   c12Clock
-	mu    sync.Mutex
-	log   []c12QEv
+	inner  types.RetryQueue
+	clk    c12Clock
+	mu     sync.Mutex
+	log    []c12QEv
+	failAt map[int]bool // tick Dequeue calls (by number) that fail
+	ticks  int
+	errs   int
 }
 
 func (q *c12RecQueue) enqueue(src string, items ...types.RetryRecord) error {
@@ -237,7 +267,85 @@ func (q *c12RecQueue) dequeue(src string, n int) ([]ocr2keepers.UpkeepPayload, e
 }
 func (q *c12RecQueue) Enqueue(items ...types.RetryRecord) error { return q.enqueue("pp", items...) }
 func (q *c12RecQueue) Dequeue(n int) ([]ocr2keepers.UpkeepPayload, error) {
+	q.mu.Lock()
+	k := q.ticks
+	q.ticks++
+	fail := q.failAt[k]
+	if fail {
+		q.errs++
+	}
+	q.mu.Unlock()
+	if fail {
+		return nil, errors.New("retry queue: injected Dequeue failure")
+	}
 	return q.dequeue("tick", n)
+}
+
+// c12RecPQ wraps the real proposal queue; chosen Dequeue calls of the case's own upkeep type fail.
+type c12RecPQ struct {
+	types.ProposalQueue
+	utype  types.UpkeepType
+	mu     sync.Mutex
+	failAt map[int]bool
+	ticks  int
+	errs   int
+}
+
+func (q *c12RecPQ) Dequeue(t types.UpkeepType, n int) ([]ocr2keepers.CoordinatedBlockProposal, error) {
+	if t == q.utype {
+		q.mu.Lock()
+		k := q.ticks
+		q.ticks++
+		fail := q.failAt[k]
+		if fail {
+			q.errs++
+		}
+		q.mu.Unlock()
+		if fail {
+			return nil, errors.New("proposal queue: injected Dequeue failure")
+		}
+	}
+	return q.ProposalQueue.Dequeue(t, n)
+}
+
+// c12Builder is the payload builder of the final flows: as fakeBuilder, but flagged proposals come back as EMPTY
+// payloads; every non-trivial answer is logged.
+type c12Builder struct {
+	blank  map[string]bool
+	failAt map[int]bool // calls with proposals (by number) that fail
+	mu     sync.Mutex
+	calls  int
+	errs   int
+	built  [][]c12Payload
+}
+
+func (b *c12Builder) BuildPayloads(_ context.Context, ps ...ocr2keepers.CoordinatedBlockProposal) ([]ocr2keepers.UpkeepPayload, error) {
+	if len(ps) > 0 {
+		b.mu.Lock()
+		k := b.calls
+		b.calls++
+		fail := b.failAt[k]
+		if fail {
+			b.errs++
+		}
+		b.mu.Unlock()
+		if fail {
+			return nil, errors.New("payload builder: injected failure")
+		}
+	}
+	out := make([]ocr2keepers.UpkeepPayload, len(ps))
+	for i, p := range ps {
+		if b.blank[c12Key(p.WorkID, p.Trigger)] {
+			continue
+		}
+		out[i] = ocr2keepers.UpkeepPayload{UpkeepID: p.UpkeepID, Trigger: p.Trigger, WorkID: p.WorkID}
+	}
+	if len(ps) > 0 {
+		b.mu.Lock()
+		b.built = append(b.built, toC12Payloads(out))
+		b.mu.Unlock()
+	}
+	return out, nil
 }
 
 type c12RecStore struct {
@@ -361,6 +469,11 @@ func (p *c12Pipeline) CheckUpkeeps(ctx context.Context, ps ...ocr2keepers.Upkeep
 			}
 		}
 	}
+	for _, pl := range ps {
+		for _, x := range p.items[c12Key(pl.WorkID, pl.Trigger)].Extra {
+			out = append(out, fromC12Res(x))
+		}
+	}
 	if p.rev {
 		for a, b := 0, len(out)-1; a < b; a, b = a+1, b-1 {
 			out[a], out[b] = out[b], out[a]
@@ -448,6 +561,10 @@ func c12RunPipe(t *testing.T, in c12Input) c12Impl {
 	pipe := &c12Pipeline{items: map[string]*c12Item{}, idx: map[string]int{}, rev: in.RevBatch, dl: in.Deadline}
 	coord := c12Coord{drop: map[string]bool{}}
 	upd := &c12Updater{fail: map[string]bool{}}
+	bld := &c12Builder{blank: map[string]bool{}, failAt: map[int]bool{}}
+	for _, k := range in.BldErr {
+		bld.failAt[k] = true
+	}
 	var payloads []ocr2keepers.UpkeepPayload
 	for i := range in.Items {
 		it := &in.Items[i]
@@ -463,7 +580,14 @@ func c12RunPipe(t *testing.T, in c12Input) c12Impl {
 		if it.UErr {
 			upd.fail[p.WorkID] = true
 		}
+		if it.Blank {
+			bld.blank[k] = true
+		}
 		payloads = append(payloads, p)
+	}
+	failAt := map[int]bool{}
+	for _, k := range in.DeqErr {
+		failAt[k] = true
 	}
 
 	workers := in.Workers
@@ -490,8 +614,16 @@ func c12RunPipe(t *testing.T, in c12Input) c12Impl {
 		t.Fatalf("NewMetadataStore: %v", err)
 	}
 	ms := &c12RecMeta{MetadataStore: ms0}
-	pq := stores.NewProposalQueue(utg)
+	pq := &c12RecPQ{ProposalQueue: stores.NewProposalQueue(utg), utype: types.LogTrigger}
+	if in.Flow == "condFinal" {
+		pq.utype = types.ConditionTrigger
+	}
 	rq := &c12RecQueue{inner: stores.NewRetryQueue(quietLogger), clk: clk}
+	if in.Flow == "retry" {
+		rq.failAt = failAt
+	} else {
+		pq.failAt = failAt
+	}
 
 	// cache pre-population: one earlier call per flagged payload, straight on the real runner
 	pipe.pre = true
@@ -507,7 +639,17 @@ func c12RunPipe(t *testing.T, in c12Input) c12Impl {
 	time.Sleep(137 * time.Millisecond)
 
 	src := &c12OneShot{}
-	none := &c12OneShot{}
+	// the sources of the flows that are not the case's subject: empty ones, or (NilIdle) none at all
+	var (
+		idleLogs  ocr2keepers.LogEventProvider          = &c12OneShot{}
+		idleRecov ocr2keepers.RecoverableProvider       = &c12OneShot{}
+		idleCond  ocr2keepers.ConditionalUpkeepProvider = &c12OneShot{} // the sampler has no nil test: always present
+		idlePQ    types.ProposalQueue                   = pq
+		idleRQ    types.RetryQueue                      = rq
+	)
+	if in.NilIdle {
+		idleLogs, idleRecov, idlePQ, idleRQ = nil, nil, nil, nil
+	}
 	var svcs []service.Recoverable
 	proposalsOf := func() []ocr2keepers.CoordinatedBlockProposal {
 		out := make([]ocr2keepers.CoordinatedBlockProposal, 0, len(payloads))
@@ -519,19 +661,20 @@ func c12RunPipe(t *testing.T, in c12Input) c12Impl {
 	switch in.Flow {
 	case "log":
 		src.ps = payloads
-		svcs = flows.LogTriggerFlows(coord, rs, ms, rrn, src, none, fakeBuilder{}, time.Second, time.Second, time.Second, rq, pq, upd, quietLogger)
+		svcs = flows.LogTriggerFlows(coord, rs, ms, rrn, src, idleRecov, bld, time.Second, time.Second, time.Second, rq, idlePQ, upd, quietLogger)
 	case "recProp":
+		// no flow built here with a source ever enqueues a retry: the retry queue may be missing as well
 		src.ps = payloads
-		svcs = flows.LogTriggerFlows(coord, rs, ms, rrn, none, src, fakeBuilder{}, time.Second, time.Second, time.Second, rq, pq, upd, quietLogger)
+		svcs = flows.LogTriggerFlows(coord, rs, ms, rrn, idleLogs, src, bld, time.Second, time.Second, time.Second, idleRQ, idlePQ, upd, quietLogger)
 	case "recFinal":
 		_ = pq.Enqueue(proposalsOf()...)
-		svcs = flows.LogTriggerFlows(coord, rs, ms, rrn, none, none, fakeBuilder{}, time.Second, time.Second, time.Second, rq, pq, upd, quietLogger)
+		svcs = flows.LogTriggerFlows(coord, rs, ms, rrn, idleLogs, idleRecov, bld, time.Second, time.Second, time.Second, rq, pq, upd, quietLogger)
 	case "sample":
 		src.ps = payloads
-		svcs = flows.ConditionalTriggerFlows(coord, c12All{}, src, blocks, fakeBuilder{}, rs, ms, rrn, pq, rq, upd, quietLogger)
+		svcs = flows.ConditionalTriggerFlows(coord, c12All{}, src, blocks, bld, rs, ms, rrn, idlePQ, idleRQ, upd, quietLogger)
 	case "condFinal":
 		_ = pq.Enqueue(proposalsOf()...)
-		svcs = flows.ConditionalTriggerFlows(coord, c12All{}, none, blocks, fakeBuilder{}, rs, ms, rrn, pq, rq, upd, quietLogger)
+		svcs = flows.ConditionalTriggerFlows(coord, c12All{}, idleCond, blocks, bld, rs, ms, rrn, pq, rq, upd, quietLogger)
 	case "retry":
 		for i, p := range payloads {
 			_ = rq.enqueue("feed", types.RetryRecord{Payload: p, Interval: time.Duration(in.Items[i].FeedIv)})
@@ -539,6 +682,10 @@ func c12RunPipe(t *testing.T, in c12Input) c12Impl {
 		svcs = []service.Recoverable{flows.NewRetryFlow(coord, rs, rrn, rq, 5*time.Second, upd, quietLogger)}
 	default:
 		t.Fatalf("unknown flow %q", in.Flow)
+	}
+	if in.NilIdle && in.Flow != "retry" {
+		// a retry flow that was given no queue: its ticks carry nothing
+		svcs = append(svcs, flows.NewRetryFlow(coord, rs, rrn, nil, time.Second, upd, quietLogger))
 	}
 	for _, s := range svcs {
 		go func(s service.Recoverable) { _ = s.Start(ctx) }(s)
@@ -594,6 +741,9 @@ func c12RunPipe(t *testing.T, in c12Input) c12Impl {
 	impl.Inelig = toJCRs(upd.calls)
 	impl.QLog = rq.log
 	impl.Asked = pipe.asked
+	impl.Built = bld.built
+	impl.DeqErrs = rq.errs + pq.errs
+	impl.BldErrs = bld.errs
 	if upd.other > 0 {
 		impl.Note = fmt.Sprintf("%d SetUpkeepState calls with a state other than Ineligible", upd.other)
 	}
@@ -616,6 +766,23 @@ var c12QueueIvs = []int64{1, int64(time.Second), int64(7 * time.Second), int64(3
 	0, int64(time.Hour), int64(100 * 365 * 24 * time.Hour), -1 << 63}
 
 var c12CustomIvs = []int64{1, int64(time.Second), int64(7 * time.Second), int64(30*time.Second) - 1, int64(30 * time.Second), int64(45 * time.Second), -5}
+
+// c12EdgeBlocks: the ends of the check block's value domain (a uint64) and the values around its sign bit; 0 — the
+// zero value of a trigger nobody stamped — is the lower end and gets the most weight
+var c12EdgeBlocks = []uint64{0, 0, 0, 1, 1, 2, 1<<63 - 1, 1 << 63, 1<<63 + 1, ^uint64(0) - 1, ^uint64(0)}
+
+// c12BlockGen: how the check blocks of one case are chosen.  "plain": ordinary heights; "low": 0, 1, 2 (so that units
+// of work meet at equal blocks and at 0 vs 1); "edge": any end of the domain.
+func c12BlockGen(r *Rng, plain func() uint64) func() uint64 {
+	switch x := r.Intn(100); {
+	case x < 64:
+		return plain
+	case x < 82:
+		return func() uint64 { return uint64(r.Intn(3)) }
+	default:
+		return func() uint64 { return c12EdgeBlocks[r.Intn(len(c12EdgeBlocks))] }
+	}
+}
 
 func c12GenPayload(r *Rng, logType bool, block uint64) ocr2keepers.UpkeepPayload {
 	uid := genUpkeepID(r, logType)
@@ -698,19 +865,38 @@ func c12GenPipe(r *Rng) c12Input {
 	berrPct := []int{0, 0, 0, 5, 5, 30, 30, 100}[r.Intn(8)]
 	dupPct := []int{0, 0, 10, 30}[r.Intn(4)]
 	foreign := r.Chance(4)
+	// outside the pipeline's contract: calls that answer with MORE results than payloads (for work ids no payload has)
+	extra := r.Chance(6)
+	final := in.Flow == "recFinal" || in.Flow == "condFinal"
+	// final flows: proposals the payload builder answers with an empty payload
+	blank := final && r.Chance(12)
+	in.NilIdle = r.Chance(15)
+	if (final || in.Flow == "retry") && r.Chance(15) {
+		for k, m := 0, r.Range(1, 3); k < m; k++ {
+			in.DeqErr = append(in.DeqErr, r.Intn(5))
+		}
+	}
+	if final && r.Chance(8) {
+		in.BldErr = []int{r.Intn(3)} // the proposals of that tick are gone: dequeued, never built
+	}
+	block := c12BlockGen(r, func() uint64 { return uint64(r.Range(100, 120)) })
 	var ps []ocr2keepers.UpkeepPayload
 	for i := 0; i < n; i++ {
 		var p ocr2keepers.UpkeepPayload
 		if i > 0 && r.Chance(dupPct) {
 			// same unit of work on another check block (or the same block with another hash)
 			p = ps[r.Intn(len(ps))]
-			switch r.Intn(3) {
+			switch r.Intn(4) {
 			case 0:
-				p.Trigger.BlockNumber += ocr2keepers.BlockNumber(r.Range(1, 3))
-			case 1:
-				if p.Trigger.BlockNumber > 3 {
-					p.Trigger.BlockNumber -= ocr2keepers.BlockNumber(r.Range(1, 3))
+				if d := ocr2keepers.BlockNumber(r.Range(1, 3)); p.Trigger.BlockNumber+d > p.Trigger.BlockNumber {
+					p.Trigger.BlockNumber += d
 				}
+			case 1:
+				if d := ocr2keepers.BlockNumber(r.Range(1, 3)); p.Trigger.BlockNumber >= d {
+					p.Trigger.BlockNumber -= d // down to block 0
+				}
+			case 2:
+				p.Trigger.BlockNumber = ocr2keepers.BlockNumber(block())
 			default:
 			}
 			p.Trigger.BlockHash = genHash(r)
@@ -719,7 +905,7 @@ func c12GenPipe(r *Rng) c12Input {
 			if in.Flow == "retry" {
 				lt = r.Bool()
 			}
-			p = c12GenPayload(r, lt, uint64(r.Range(100, 120)))
+			p = c12GenPayload(r, lt, block())
 		}
 		ps = append(ps, p)
 		it := c12Item{P: toC12Payload(p), Res: toC12Res(c12GenRes(r, p, c12Class(r, mix))), LatMs: []int{0, 0, 1, 20, 150, 400}[r.Intn(6)],
@@ -743,6 +929,17 @@ func c12GenPipe(r *Rng) c12Input {
 		if in.Flow == "retry" {
 			it.FeedIv = []int64{1, 1, int64(time.Second), int64(4 * time.Second), int64(5 * time.Second), 0, int64(8 * time.Second)}[r.Intn(7)]
 		}
+		if extra && r.Chance(35) {
+			for k, m := 0, r.Range(1, 3); k < m; k++ {
+				x := toC12Res(c12GenRes(r, p, []int{2, 2, 2, 0, 1, 3}[r.Intn(6)]))
+				x.WID = hx(r.Bytes(32))
+				if r.Chance(15) {
+					x.WID = ""
+				}
+				it.Extra = append(it.Extra, x)
+			}
+		}
+		it.Blank = blank && r.Chance(25)
 		in.Items = append(in.Items, it)
 	}
 	// some runs reach the observer's own time limit: checks that take about / exactly / longer than it, under a
@@ -776,6 +973,9 @@ func c12GenPipe(r *Rng) c12Input {
 	if slow {
 		in.RunFor += int64(flows.ObservationProcessLimit) + int64(time.Second)
 	}
+	if final && len(in.DeqErr) > 0 {
+		in.RunFor += int64(len(in.DeqErr)) * int64(time.Second) // a failed tick's proposals wait for the next one
+	}
 	// probes of the retry queue afterwards
 	np := r.Range(0, 4)
 	for i := 0; i < np; i++ {
@@ -799,8 +999,10 @@ func c12GenQueue(r *Rng) c12Input {
 	base := make([]ocr2keepers.UpkeepPayload, nw)
 	// check blocks also at and across 2^31, 2^32, 2^53, 2^63 and at the top of uint64
 	lo := []uint64{100, 100, 100, 1<<31 - 3, 1<<32 - 3, 1<<53 - 3, 1<<63 - 3, ^uint64(0) - 15}[r.Intn(8)]
+	// … and at the ends of the domain themselves: 0 (the block of a trigger nobody stamped), 1, 2^63, 2^64-1
+	block := c12BlockGen(r, func() uint64 { return lo + uint64(r.Range(0, 10)) })
 	for i := range base {
-		base[i] = c12GenPayload(r, r.Bool(), lo+uint64(r.Range(0, 10)))
+		base[i] = c12GenPayload(r, r.Bool(), block())
 	}
 	type enq struct {
 		t, iv int64
@@ -846,12 +1048,27 @@ func c12GenQueue(r *Rng) c12Input {
 		now += d
 		if i == 0 || r.Chance(50) {
 			p := base[r.Intn(nw)]
-			switch r.Intn(4) {
+			switch r.Intn(6) {
 			case 0:
-				p.Trigger.BlockNumber += ocr2keepers.BlockNumber(r.Range(1, 5))
+				// a newer check block; not past the top of the domain
+				if d := ocr2keepers.BlockNumber(r.Range(1, 5)); p.Trigger.BlockNumber+d > p.Trigger.BlockNumber {
+					p.Trigger.BlockNumber += d
+				}
 				p.Trigger.BlockHash = genHash(r)
 			case 1:
-				p.Trigger.BlockNumber -= ocr2keepers.BlockNumber(r.Range(1, 5))
+				// an older check block, down to 0
+				if d := ocr2keepers.BlockNumber(r.Range(1, 5)); p.Trigger.BlockNumber >= d {
+					p.Trigger.BlockNumber -= d
+				} else {
+					p.Trigger.BlockNumber = 0
+				}
+				p.Trigger.BlockHash = genHash(r)
+			case 2:
+				// any block of the case's range: far apart, or equal to what is queued
+				p.Trigger.BlockNumber = ocr2keepers.BlockNumber(block())
+				p.Trigger.BlockHash = genHash(r)
+			case 3:
+				// the same check block on another fork
 				p.Trigger.BlockHash = genHash(r)
 			}
 			iv := int64(0)
@@ -878,11 +1095,12 @@ func c12GenQueue(r *Rng) c12Input {
 // c12Edge: hand-written cases, run before the generated ones.
 func c12Edge() []c12Input {
 	r := NewRng(121212)
+	blk := uint64(100)
 	mk := func(flow string, classes []int, cached []bool) c12Input {
 		in := c12Input{Kind: "pipe", Flow: flow, Workers: 2, RunFor: int64(17 * time.Second),
 			Probes: []c12Probe{{Kind: "bound", J: 0, Delta: 0, N: 1000}, {Kind: "bound", J: 0, Delta: 1, N: 1000}, {Kind: "abs", D: int64(61 * time.Second), N: 1000}}}
 		for i, c := range classes {
-			p := c12GenPayload(r, flow != "sample" && flow != "condFinal", 100)
+			p := c12GenPayload(r, flow != "sample" && flow != "condFinal", blk)
 			it := c12Item{P: toC12Payload(p), Res: toC12Res(c12GenRes(r, p, c)), LatMs: 10 * (len(classes) - i)}
 			if cached[i] {
 				pre := toC12Res(c12GenRes(r, p, 0))
@@ -940,6 +1158,70 @@ func c12Edge() []c12Input {
 		in.RunFor = int64(41 * time.Second)
 		out = append(out, in)
 	}
+	// the ends of the check block's domain, through every flow: block 0 (a trigger nobody stamped) and 2^64-1
+	for _, b := range []uint64{0, ^uint64(0)} {
+		blk = b
+		for _, f := range []string{"log", "recFinal", "recProp", "sample", "condFinal"} {
+			out = append(out, mk(f, []int{2, 0, 1, 2, 3}, []bool{false, false, true, false, false}))
+		}
+		in := mk("retry", []int{2, 0, 2, 1, 2}, make([]bool, 5))
+		for i := range in.Items {
+			in.Items[i].FeedIv = []int64{1, int64(time.Second), 0}[i%3]
+		}
+		in.RunFor = int64(41 * time.Second)
+		out = append(out, in)
+	}
+	// one unit of work checked on block 0 and on block 1 in one batch, both failing retryably
+	{
+		blk = 0
+		in := mk("log", []int{2, 0, 2}, []bool{false, false, false})
+		p := fromC12Payload(in.Items[0].P)
+		p.Trigger.BlockNumber = 1
+		p.Trigger.BlockHash = genHash(r)
+		in.Items[2] = c12Item{P: toC12Payload(p), Res: toC12Res(c12GenRes(r, p, 2))}
+		out = append(out, in)
+	}
+	blk = 100
+	// more results than payloads: two retryable failures for work ids no payload has, at positions past the payload
+	// list — nothing may be retried for them; and the same ahead of the regular answers (reverse order)
+	for _, rev := range []bool{false, true} {
+		in := mk("log", []int{2, 0}, []bool{false, false})
+		for k := 0; k < 2; k++ {
+			x := toC12Res(c12GenRes(r, fromC12Payload(in.Items[1].P), 2))
+			x.WID = hx(r.Bytes(32))
+			in.Items[1].Extra = append(in.Items[1].Extra, x)
+		}
+		in.RevBatch = rev
+		out = append(out, in)
+	}
+	// flows whose idle neighbours have no provider / queue at all; a retry flow without a queue alongside
+	for _, f := range []string{"log", "recProp", "recFinal", "sample", "condFinal"} {
+		in := mk(f, []int{2, 0, 1, 2}, make([]bool, 4))
+		in.NilIdle = true
+		out = append(out, in)
+	}
+	// the source queue's Dequeue fails on the first two ticks: nothing is processed then, everything afterwards
+	for _, f := range []string{"retry", "recFinal", "condFinal"} {
+		in := mk(f, []int{2, 0, 1, 2, 0}, make([]bool, 5))
+		in.DeqErr = []int{0, 1}
+		for i := range in.Items {
+			in.Items[i].FeedIv = 1
+		}
+		in.RunFor = int64(22 * time.Second)
+		out = append(out, in)
+	}
+	// the payload builder fails on the first tick that has proposals: that tick routes nothing
+	for _, f := range []string{"recFinal", "condFinal"} {
+		in := mk(f, []int{0, 2, 1}, make([]bool, 3))
+		in.BldErr = []int{0}
+		out = append(out, in)
+	}
+	// the payload builder answers two of five proposals with an empty payload: those are skipped, not checked
+	for _, f := range []string{"recFinal", "condFinal"} {
+		in := mk(f, []int{0, 2, 0, 1, 2}, make([]bool, 5))
+		in.Items[0].Blank, in.Items[3].Blank = true, true
+		out = append(out, in)
+	}
 	// queue histories
 	pA := c12GenPayload(r, true, 100)
 	pC := c12GenPayload(r, false, 100)
@@ -961,6 +1243,24 @@ func c12Edge() []c12Input {
 		c12Input{Kind: "queue", Ops: []c12Op{enq(0, pA, 0), enq(h24-30*s-1, pA2, 0), deq(30*s+1, 5), enq(0, pA, 1), deq(2, 5), enq(h24, pA, 1), deq(2, 5)}},
 		// purge order: A expired and C due when Dequeue(1) runs; A is re-enqueued afterwards
 		c12Input{Kind: "queue", Ops: []c12Op{enq(0, pA, 0), enq(h24-60*s, pC, 0), deq(61*s, 1), enq(s, pA, 0), deq(40*s, 10), deq(40*s, 10)}},
+	)
+	// check blocks at the ends of their domain
+	at := func(p ocr2keepers.UpkeepPayload, b uint64) ocr2keepers.UpkeepPayload {
+		p.Trigger.BlockNumber = ocr2keepers.BlockNumber(b)
+		p.Trigger.BlockHash = genHash(r)
+		return p
+	}
+	top, half := ^uint64(0), uint64(1)<<63
+	out = append(out,
+		// block 0 alone: retried after its interval, re-enqueued on block 0 when it fails again, retried again
+		c12Input{Kind: "queue", Ops: []c12Op{enq(0, at(pA, 0), 0), deq(30*s+1, 10), enq(1, at(pA, 0), s), deq(s+1, 10), deq(40*s, 10)}},
+		// block 0, then block 1 replaces it; block 0 does not replace block 1; a second unit of work stays on block 0
+		c12Input{Kind: "queue", Ops: []c12Op{enq(0, at(pA, 0), 1), enq(0, at(pC, 0), 1), enq(0, at(pA, 1), 1), enq(0, at(pA, 0), 1), deq(2, 10), deq(40*s, 10)}},
+		// equal blocks: the payload queued first stays
+		c12Input{Kind: "queue", Ops: []c12Op{enq(0, at(pA, 0), 1), enq(0, at(pA, 0), 1), deq(2, 10), enq(0, at(pC, top), 1), enq(0, at(pC, top), 1), deq(2, 10)}},
+		// across the sign bit and at the top: 2^63-1 < 2^63 < 2^64-1, nothing is newer than 2^64-1, 0 is older than all
+		c12Input{Kind: "queue", Ops: []c12Op{enq(0, at(pA, half-1), 1), enq(0, at(pA, half), 1), deq(2, 10), enq(0, at(pA, top), 1), enq(0, at(pA, 0), 1), enq(0, at(pA, half), 1), deq(2, 10),
+			enq(0, at(pC, top), 1), enq(0, at(pC, 0), 1), deq(2, 10)}},
 	)
 	return out
 }
